@@ -373,6 +373,14 @@ pub fn proj(s: &Sentence, o: &ProjOpts) -> Value {
                 v["wtok"] = str_to_cps(&String::from_utf8_lossy(b.as_bytes()));
                 if o.reparse {
                     v["rtok"] = guarded(|| reparse_lite(Sentence::from_tokenized(b)));
+                    v["wtok2"] = guarded(|| match Sentence::from_tokenized(b) {
+                        Ok(s2) => {
+                            let mut b2 = String::new();
+                            s2.write_tokenized_text(&mut b2);
+                            str_to_cps(&b2)
+                        }
+                        Err(_) => json!("err"),
+                    });
                 }
             }
             Err(_) => v["wtok"] = json!("panic"),
@@ -383,6 +391,14 @@ pub fn proj(s: &Sentence, o: &ProjOpts) -> Value {
                 v["wpart"] = str_to_cps(&String::from_utf8_lossy(b.as_bytes()));
                 if o.reparse {
                     v["rpart"] = guarded(|| reparse_lite(Sentence::from_partial_annotation(b)));
+                    v["wpart2"] = guarded(|| match Sentence::from_partial_annotation(b) {
+                        Ok(s2) => {
+                            let mut b2 = String::new();
+                            s2.write_partial_annotation_text(&mut b2);
+                            str_to_cps(&b2)
+                        }
+                        Err(_) => json!("err"),
+                    });
                 }
             }
             Err(_) => v["wpart"] = json!("panic"),
